@@ -69,6 +69,7 @@ typedef struct {
 	uint32_t calls[F_LAST];		/* how often each injectable function was called while armed */
 	uint32_t injected[F_LAST];
 	uint32_t double_free, close_unknown;
+	uint32_t bad_joins;		/* pthread_join() calls of the library on a thread id that was already joined / never created by it */
 	uint32_t mutex_gone;		/* unlocks that found their mutex destroyed/overwritten while still held (see tp_common.c) */
 	uint32_t vp_hits[32];
 } tp_res_stats;
